@@ -1,9 +1,9 @@
 CONSTANTS
   Dev = {"D_plus_sign", "D_rcode_fromstr", "D_nsap_ptr_mnemonic", "D_tsig_notimpl_mnemonic", "D_new_lowercase_subset"}
-  MaxTail = 1
-  SmallTail = 0
-  TailTypes = {"Rtype", "Rcode"}
-  FullTypes = {}
+  MaxTail = 4
+  SmallTail = 3
+  TailTypes = {"Rtype", "SecurityAlgorithm"}
+  FullTypes = {"Rtype", "Class", "SvcParamKey", "ExtendedErrorCode", "OptionCode", "TsigRcode", "RType", "RClass"}
   Emitting = TRUE
 SPECIFICATION Spec
 INVARIANT Emit
